@@ -91,6 +91,7 @@ impl Coster for HCoster {
 pub enum ValKind {
     Always,
     Sum5,
+    Asym3,
     Never,
 }
 pub struct HValidator(pub ValKind);
@@ -100,6 +101,7 @@ impl UpdateValidator for HValidator {
         match self.0 {
             ValKind::Always => true,
             ValKind::Sum5 => (prev.id + curr.id) % 5 != 0,
+            ValKind::Asym3 => (prev.id + 2 * curr.id) % 5 != 0,
             ValKind::Never => false,
         }
     }
@@ -393,7 +395,7 @@ impl World {
         };
         let hdr = json!({"ev":"Init","flavor":w.cfg.flavor,"bufcap":w.cfg.buf_cap,"max":w.cfg.max_cost,
             "itemsize":w.item_size,"coster":match w.cfg.coster {CosterKind::Const2=>"const2",CosterKind::Mod3=>"mod3",CosterKind::Zero=>"zero"},
-            "validator":match w.cfg.validator {ValKind::Always=>"always",ValKind::Sum5=>"sum5",ValKind::Never=>"never"},
+            "validator":match w.cfg.validator {ValKind::Always=>"always",ValKind::Sum5=>"sum5",ValKind::Asym3=>"asym3",ValKind::Never=>"never"},
             "now":w.now_ms,"clients":w.cfg.clients,"nc":w.cfg.num_counters,"bi":w.cfg.buffer_items,"post":post(&w.cache)});
         w.t.push(hdr);
         w
@@ -816,6 +818,16 @@ impl World {
         self.settle_others();
     }
 
+    /// popularity change (abstract in Cache.tla): record n accesses of harness key k in the TinyLFU
+    pub fn bump(&mut self, k: u64, n: usize) {
+        let (i, _) = KEYTAB[k as usize % KEYTAB.len()];
+        match &self.cache {
+            AnyCache::Sync(c) => verif::bump_sync(c, i, n),
+            AnyCache::Async(c) => verif::bump_async(c, i, n),
+        }
+        self.emit(json!({"ev":"Bump","i":i,"n":n}));
+    }
+
     pub fn advance(&mut self, dt_ms: u64) {
         self.now_ms += dt_ms;
         verif::clock::set_virtual(self.now_ms * MS);
@@ -1009,6 +1021,7 @@ pub struct Profile {
     pub sequential: bool,
     pub p_advance: f64,
     pub p_tick: f64,
+    pub p_bump: f64,
     pub max_cost: (i64, i64),
     pub buf_cap: (usize, usize),
     pub costs: Vec<i64>,
@@ -1087,6 +1100,12 @@ pub fn random_walk(rng: &mut StdRng, p: &Profile, t: Trace) -> (Trace, usize, Ve
         if rng.gen_bool(p.p_advance) {
             let dt = p.advances[rng.gen_range(0..p.advances.len())];
             w.advance(dt);
+            continue;
+        }
+        if rng.gen_bool(p.p_bump) {
+            let k = p.keys[rng.gen_range(0..p.keys.len())];
+            let n = rng.gen_range(1..=3);
+            w.bump(k, n);
             continue;
         }
         if p.sequential {
@@ -1180,6 +1199,7 @@ pub fn profile(name: &str, flavor: &'static str) -> Profile {
         sequential: true,
         p_advance: 0.0,
         p_tick: 0.0,
+        p_bump: 0.08,
         max_cost: (4, 12),
         buf_cap: (2, 4),
         costs: vec![0, 1, 1, 2, 3, 5],
@@ -1193,10 +1213,11 @@ pub fn profile(name: &str, flavor: &'static str) -> Profile {
     match name {
         "seq" => base,
         "seq_internal" => Profile { name: "seq_internal", ignore_internal: false, max_cost: (150, 400), coster: CosterKind::Mod3, ..base },
-        "seq_veto" => Profile { name: "seq_veto", validator: ValKind::Sum5, w: [30, 0, 15, 8, 20, 3, 0, 1, 0, 2, 0, 2], ..base },
+        "seq_veto5" => Profile { name: "seq_veto5", validator: ValKind::Sum5, w: [30, 0, 15, 8, 20, 3, 0, 1, 0, 2, 0, 2], ..base },
+        "seq_veto" => Profile { name: "seq_veto", validator: ValKind::Asym3, w: [30, 0, 15, 8, 20, 3, 0, 1, 0, 2, 0, 2], ..base },
         "ttl" => Profile {
             name: "ttl",
-            w: [10, 30, 5, 8, 15, 2, 15, 2, 0, 1, 0, 2],
+            w: [10, 30, 5, 8, 15, 10, 15, 2, 0, 1, 0, 2],
             p_advance: 0.35,
             p_tick: 0.5,
             ttls: vec![1, 300, 500, 999, 1000, 1001, 1500, 2500, 3_600_000],
@@ -1226,6 +1247,19 @@ pub fn profile(name: &str, flavor: &'static str) -> Profile {
             w: [30, 0, 5, 10, 12, 0, 0, 8, 0, 8, 0, 1],
             buf_cap: (1, 3),
             max_cost: (3, 8),
+            ..base
+        },
+        "evict" => Profile {
+            name: "evict",
+            clients: 2,
+            sequential: false,
+            steps: 140,
+            keys: vec![0, 3, 4, 5, 6, 7, 8],
+            w: [50, 0, 4, 6, 8, 0, 0, 0, 0, 4, 2, 1],
+            buf_cap: (2, 4),
+            max_cost: (5, 9),
+            costs: vec![1, 1, 2, 3, 5, 6],
+            p_bump: 0.2,
             ..base
         },
         "life" => Profile {
